@@ -2,6 +2,7 @@ package node
 
 import (
 	"bytes"
+	"errors"
 	"fmt"
 	"strconv"
 	"strings"
@@ -11,6 +12,8 @@ import (
 	"github.com/youzan/ZanRedisDB/common"
 	"github.com/youzan/ZanRedisDB/rockredis"
 )
+
+var errOffsetOutOfRange = errors.New("ERR offset is out of range")
 
 func getExSecs(ex []byte, secs []byte) (int64, error) {
 	if !bytes.Equal(bytes.ToLower(ex), []byte("ex")) {
@@ -348,6 +351,29 @@ func (nd *KVNode) delIfEQCommand(cmd redcon.Command) (interface{}, error) {
 	}
 
 	rsp, err := rebuildFirstKeyAndPropose(nd, cmd, nil)
+	if err != nil {
+		return nil, err
+	}
+	return rsp, nil
+}
+
+func (nd *KVNode) setrangeCommand(cmd redcon.Command) (interface{}, error) {
+	if len(cmd.Args) < 4 {
+		err := fmt.Errorf("ERR wrong number arguments for '%v' command", string(cmd.Args[0]))
+		return nil, err
+	}
+	if err := common.CheckKey(cmd.Args[1]); err != nil {
+		return nil, err
+	}
+	// the offset is checked before the command enters the raft log
+	offset, err := strconv.ParseInt(string(cmd.Args[2]), 10, 64)
+	if err != nil {
+		return nil, err
+	}
+	if offset < 0 || offset > int64(rockredis.MaxValueSize) {
+		return nil, errOffsetOutOfRange
+	}
+	rsp, err := rebuildFirstKeyAndPropose(nd, cmd, checkAndRewriteIntRsp)
 	if err != nil {
 		return nil, err
 	}
